@@ -3,7 +3,7 @@ from props import _auto
 
 LEAN_MODULES = _auto.lean_modules("C10")
 VARIANTS = ['default']
-RULE = 'HKDF L in {0,1,H-1,H,H+1,..,255H,255H+1} x PRK length in {0,1,H-1 (refused), H,H+1,2H,B,B+1}; PBKDF2 x PRF x c x dkLen across block boundaries; scrypt log2N 1..=10 (quick <=6), r 1..=8, p 1..=4, dkLen 1..=130; non-trivial = non-empty inputs; distinct = distinct case lines'
+RULE = 'HKDF: every named L in {0,1,H-1,H,H+1,2H-1,2H,2H+1,3H,..,254H,254H+1,255H-1,255H,255H+1,256H,256H+1,300H} with a VALID PRK (|PRK| = H) unconditionally, and in addition with PRK lengths {0,1 (refused), B, B+1}; PRK length in {0,1,H-1 (refused), H,H+1,2H} x L; PBKDF2 x PRF x c x dkLen across block boundaries; scrypt: thorough the FULL grid log2N 1..=10 x r 1..=8 x p 1..=4 (320 points) plus log2N 12 and 15, quick every log2N 1..=10 at r=p=1 and on a diagonal, every r, every p, and a seeded sample under a cost budget (60 points); dkLen every value 1..=130 at (r,p)=(1,1) and at (3,2) in both tiers; ScryptParams refusal matrix; non-trivial = non-empty inputs; distinct = distinct case lines'
 TRUSTED = ["hand-written Lean models (lean/CxVerif/Impl, Spec) tied to the code by the correspondence run and by tables re-extracted from /repo/src"]
 ASSUMPTIONS = ["scrypt: log_n <= 32 (`integerify` reads 32 bits; larger N needs >= 3 TiB of memory — see DESIGN 14.2/known findings), 128*r*N < 2^64, password/salt lengths < 2^61; PBKDF2/HKDF: PRF input lengths within the hash's limits"]
 gen = _auto.make_gen("C10")
